@@ -44,6 +44,7 @@ class RegWorld:
         self.codes = r["v"]
         self.factory = self._inst("factory", {"pair_code_id": self.codes["pair"], "token_code_id": self.codes["cw20"]})
         self.tokens = []
+        self.dead = set()
         self.true_dec = {}
         for i in range(n_tokens):
             dec = rng.choice([0, 6, 8, 18])
@@ -66,6 +67,21 @@ class RegWorld:
 
     NOISE = ["migrate_pair", "migrate_pair", "update_config_code", "owner_direct_update", "stranger_direct_update",
              "padded_denom", "migrate_factory"]
+
+    def kill_token(self, rng, acc):
+        """a cw20's issuer migrates it to unrelated code: from then on it answers no token query. Pairs that trade it stay
+        registered as they are, and everything that does not need the token must go on working (re-registrations included)."""
+        live = [t for t in self.tokens if t not in self.dead]
+        if len(live) < 2:
+            return None
+        t = rng.choice(live)
+        r = self.srv.send({"op": "migrate", "sender": "owner", "contract": t, "code": "factory", "msg": "{}"})
+        acc.ev()
+        acc.cls("admin_noise", "kill_token", r["r"])
+        acc.count("admin_noise_kill_token_" + r["r"])
+        if r["r"] == "ok":
+            self.dead.add(t)
+        return t
 
     def admin_noise(self, rng, acc, kind=None):
         """administrative actions (and attempts) after which every registry record must still equal what was created / last
@@ -109,7 +125,7 @@ class RegWorld:
 
     def _inst(self, code, msg):
         r = self.srv.send({"op": "inst", "code": code, "sender": "owner", "msg": json.dumps(msg), "label": code,
-                           "admin": "owner" if code == "factory" else None})
+                           "admin": "owner" if code in ("factory", "cw20") else None})
         if r["r"] != "ok":
             raise HarnessFault("instantiate failed: %r" % (r,))
         for e in r["v"]["events"]:
@@ -131,7 +147,7 @@ class RegWorld:
     def valid(self, a):
         if a[0] == "n":
             return a[1] in self.reg
-        return a[1] in self.tokens
+        return a[1] in self.tokens and a[1] not in self.dead
 
     def decimals_of(self, a):
         return self.reg[a[1]] if a[0] == "n" else self.true_dec[a]
